@@ -555,6 +555,23 @@ def _run_check(chk: 'Check', main: T.Callable[['Check'], None], prop: str,
     return chk.finish()
 
 
+def size_chunks(xs: T.Sequence[T.Any], n: int, project: T.Optional[T.Callable[[T.Any], T.Any]] = None,
+                max_bytes: int = 20_000_000) -> T.Iterator[T.List[T.Any]]:
+    """Like chunks(), but a chunk also ends before its JSON text (of project(x) per element) would exceed max_bytes:
+    TLC's Json module failed on trace files of about 25 MB and more (thorough tiers of C18 and C01)."""
+    cur: T.List[T.Any] = []
+    size = 0
+    for x in xs:
+        b = len(json.dumps(project(x) if project else x)) + 2
+        if cur and (len(cur) >= n or size + b > max_bytes):
+            yield cur
+            cur, size = [], 0
+        cur.append(x)
+        size += b
+    if cur:
+        yield cur
+
+
 def chunks(xs: T.Sequence[T.Any], n: int) -> T.Iterator[T.Sequence[T.Any]]:
     for i in range(0, len(xs), n):
         yield xs[i:i + n]
